@@ -69,6 +69,9 @@ partial def hostOfJson (j : Json) : Option Host := do
   else if k == "until" then do
     pure (.loopUntil (← int "n") (← body "body") (← val "ef") (← int "ev") (← body "cl"))
   else if k == "try" then do pure (.tryUntil (← int "n") (← body "body"))
+  else if k == "epr" then do
+    let evs ← (jField? j "ev").bind jInts?
+    pure (.epr (evs.map (fun v => if v < 0 then EprEv.take else EprEv.rel v.toNat)))
   else none
 
 partial def blockOfJson (j : Json) : Option Host := do
